@@ -49,11 +49,28 @@ def describe(op):
     c = C.op_comment(op).strip().split(" ", 3)
     return c[3] if len(c) > 3 else ""
 
+KIND_OF_FILE = {"types/slice.go": "slice", "types/array.go": "array", "types/tuple.go": "tuple", "types/map.go": "map",
+                "types/record.go": "record", "types/set.go": "set", "types/object.go": "object", "types/struct.go": "struct",
+                "types/union.go": "union", "types/xor.go": "xor", "types/intersection.go": "inter",
+                "types/discriminated_union.go": "du", "types/lazy.go": "lazy"}   # engine / issues helpers: every kind
+
 def run(res):
     ok, detail = C.prove(res, MODULES, THEOREMS)
     if not ok:
         C.tie_broken(res, "proof Gozod.Proofs.C02", detail)
-    data, err = C.correspond(res, "C02")
+    # structure fingerprints (go/ast) of the Go functions Model/Containers.lean transcribes: an edited function aims the run
+    # at the container kinds it serves (4x the schemas of those kinds); a function that is gone is a broken tie
+    changed = C.fingerprint(res, "C02")
+    aim = set()
+    for k, lean_def, kind, detail in changed:
+        if kind == "missing":
+            C.tie_broken(res, "fingerprint " + k, "the Go function %s transcribes is gone or renamed" % lean_def)
+        f = k.split(":")[0]
+        aim.add(KIND_OF_FILE.get(f, "all"))
+    if changed:
+        res.notes.append("modelled Go functions edited since the expectation was recorded: " +
+                         "; ".join("%s (%s) transcribed by %s" % (c[0], c[2], c[1]) for c in changed) + "; run aimed at " + ",".join(sorted(aim)))
+    data, err = C.correspond(res, "C02", extra_args=(["aim=" + ",".join(sorted(aim))] if aim else []))
     if data is None:
         C.tie_broken(res, "correspondence C02/containers", err)
         return res.finish()
